@@ -1,5 +1,5 @@
 """C38 — outbound LLM connections never reach internal addresses (spec/daisen/SSRF.tla)."""
-import ipaddress, socket
+import ipaddress, re, socket
 from vlib import core, daisen
 
 LEVEL = "model_checking"
@@ -44,6 +44,8 @@ def run(ck):
     sub = {"@PUB@": disc["pub"], "@ULA@": disc["ula"], "@LL6@": disc["ll6"], "@LLZ@": disc["ll_zone"]}
     if not disc["v6"]:
         sub["@ULA@"] = sub["@LL6@"] = ""
+    sub["@CIRCLED127@"] = "\u2460\u2461\u2466"      # circled digits one, two, seven
+    sub["@IDEODOT@"] = "\u3002"                      # ideographic full stop
     ck.cov["local_addresses"] = dict(sub, v6=disc["v6"])
 
     r = ck.run_tlc(["daisen"], "SSRF", "SSRF_q.cfg" if quick else "SSRF_t.cfg", workers=8, timeout=400)
@@ -96,15 +98,16 @@ def run(ck):
             path = "/hop%d/v1/chat/completions" % (k + 1)
             shape = h.get("shape", "plain")
             hp = "%s:%d" % (host, port)
-            u = {"plain": "http://%s%s" % (hp, path),
-                 "userinfo": "http://user@%s%s" % (hp, path),
-                 "userinfo_colon": "http://user:pw@%s%s" % (hp, path),
-                 "userinfo_at_public": "http://8.8.8.8:80@%s%s" % (hp, path),
-                 "fragment_at": "http://%s%s#@8.8.8.8/" % (hp, path),
-                 "query_at": "http://%s%s?next=@8.8.8.8/" % (hp, path),
-                 "upper_scheme": "HTTP://%s%s" % (hp, path),
-                 "path_at": "http://%s/hop%d/@8.8.8.8/v1/chat/completions" % (hp, k + 1),
-                 "no_path": "http://%s" % hp}[shape]
+            tok = "?c=%d" % i      # marks the traffic of this case: only requests carrying it are attributed to the server
+            u = {"plain": "http://%s%s%s" % (hp, path, tok),
+                 "userinfo": "http://user@%s%s%s" % (hp, path, tok),
+                 "userinfo_colon": "http://user:pw@%s%s%s" % (hp, path, tok),
+                 "userinfo_at_public": "http://8.8.8.8:80@%s%s%s" % (hp, path, tok),
+                 "fragment_at": "http://%s%s%s#@8.8.8.8/" % (hp, path, tok),
+                 "query_at": "http://%s%s%s&next=@8.8.8.8/" % (hp, path, tok),
+                 "upper_scheme": "HTTP://%s%s%s" % (hp, path, tok),
+                 "path_at": "http://%s/hop%d/@8.8.8.8/v1/chat/completions%s" % (hp, k + 1, tok),
+                 "no_path": "http://%s%s" % (hp, tok)}[shape]
             hops.append({"url": u, "name": name, "answers": answers})
         if not ok:
             skipped += 1
@@ -170,7 +173,7 @@ def run(ck):
     by_id = {b["id"]: b for b in bound}
     nontriv = 0
     blind_ok = pub_ok = False
-    n_contacts = n_dials = 0
+    n_contacts = n_dials = stray = 0
     for cid, res in sorted(results.items()):
         b = by_id[cid]
         spec = b["spec"]
@@ -201,6 +204,9 @@ def run(ck):
                     "answers": "/".join("+".join(sorted(cls_of.get(norm(fill(x)), "?") for x in s)) for s in h.get("answers", []))}
 
         for c in contacts:
+            if not re.search(r"[?&]c=%d(&|$)" % cid, c.get("path") or ""):
+                stray += 1      # a bare connection (the layer flow's own dial, judged below) or somebody else's traffic
+                continue
             cl = cls_of.get(norm(c["ip"]), "unknown")
             if cl != "public":
                 ck.report(key("accepted", cl, c["flow"]),
@@ -236,6 +242,7 @@ def run(ck):
     ck.cov["evaluations"] += 3 * len(results)
     ck.cov["distinct_nontrivial"] += nontriv
     ck.cov["connections_observed"] = n_contacts
+    ck.cov["bare_connections_not_attributed"] = stray
     ck.cov["dial_attempts_observed"] = n_dials
     ck.cov["dns_queries_answered"] = dns
     ck.cov["exhaustive"] = True
